@@ -69,6 +69,9 @@ POPS = {
     # the recorded inference node still differentiates the function that was evaluated
     "batch_norm_eval_then_train": (1, lambda L, t, a: _bn_eval_then_train(L, t, a),
                                    lambda x, a: R.batch_norm(x[0], None, None, np.zeros(x[0].shape[1]), 0.5 + np.arange(x[0].shape[1], dtype=np.float64), False, 0.5, 1e-5)[0]),
+    "conv1d_wb": (3, lambda L, t, a: L.sg.conv1d(t[0], t[1], t[2], 1, a["p"], 1), lambda x, a: R.conv_nd(x[0], x[1], x[2], 1, a["p"], 1, 1)),
+    # a constant operand that the caller advances with an augmented assignment after the op was recorded (step counters, running offsets)
+    "mul_const_then_iadd": (1, lambda L, t, a: _mul_const_then_iadd(L, t, a), lambda x, a: x[0] * np.asarray(a["c"], dtype=np.float64)),
     "unfold2d": (1, lambda L, t, a: L.sg.unfold(t[0], a["k"], 1, a["s"], a["p"]), lambda x, a: R.unfold(x[0], a["k"], 1, a["s"], a["p"])),
     "ce_const": (1, lambda L, t, a: L.sg.cross_entropy(t[0], L.Tensor(np.asarray(a["target"], dtype=np.int64))),
                  lambda x, a: R.cross_entropy(x[0], np.asarray(a["target"]))),
@@ -97,6 +100,14 @@ def _bn_eval_then_train(L, t, a):
     other = L.Tensor((np.arange(x.data.size, dtype=np.float64).reshape(x.shape) % 7 * 1.5 - 2.0).astype(dt))
     if other.data.size // C >= 2:
         L.sg.batch_norm(other, None, None, rm, rv, True, 0.5, 1e-5)      # same statistics tensors, training mode: they move on
+    return out
+
+
+def _mul_const_then_iadd(L, t, a):
+    c = L.Tensor(np.asarray(a["c"], dtype=t[0].data.dtype))
+    out = t[0] * c
+    c += 1.0                      # rebinding or not, the recorded product keeps differentiating with the value it was computed with
+    c *= 3.0
     return out
 
 
@@ -194,6 +205,7 @@ def generate(rng, n_instr, n_leaves, allow_kinks=False, big=False, leaves=None, 
         vals = list(vals0)
         leaf_vals = vals[:len(leaves)]
         used = set(i for ins in instrs for i in ins["in"])
+        reserved = set()
         n_instr = len(instrs) + n_instr
     else:
         if leaves is None:
@@ -207,6 +219,27 @@ def generate(rng, n_instr, n_leaves, allow_kinks=False, big=False, leaves=None, 
         vals = list(leaf_vals)
         instrs = []
         used = set()
+        reserved = set()
+        if n_leaves is not None and not big and rng.random() < 0.25:
+            # a layer whose parameters are leaves of the program: x, W, b (the bias starts at exactly zero half of the time, as after zeros_)
+            conv = rng.random() < 0.4
+            shp = ([[1, 2, 5], [2, 2, 2], [2]] if conv else [[2, 3] if rng.random() < 0.6 else [2, 2, 3], [4, 3], [4]])
+            base = len(leaves)
+            for j, s_ in enumerate(shp):
+                leaves.append({"shape": s_, "req": True if j == 2 else bool(rng.random() < 0.8)})
+                v_ = rng.standard_normal(tuple(s_))
+                if j == 2 and rng.random() < 0.5:
+                    v_ = np.zeros(tuple(s_))
+                leaf_vals.append(v_); vals.append(v_)
+            if conv:
+                instrs.append({"op": "conv1d_wb", "in": [base, base + 1, base + 2], "args": {"p": 1}, "nout": 1})
+                vals.append(R.conv_nd(vals[base], vals[base + 1], vals[base + 2], 1, 1, 1, 1))
+            else:
+                instrs.append({"op": "linear", "in": [base, base + 1, base + 2], "args": {}, "nout": 1})
+                vals.append(vals[base] @ vals[base + 1].T + vals[base + 2])
+            used.update([base, base + 1, base + 2])
+            if not np.any(vals[base + 2]):
+                reserved.add(base + 2)        # exact zeros feed only the layer (|x|, log(x^2), max ... have kinks / poles there)
     names = [k for k in POPS if allow_kinks or k not in KINKED]
     attempts = 0
     while len(instrs) < n_instr and attempts < n_instr * 30:
@@ -219,6 +252,8 @@ def generate(rng, n_instr, n_leaves, allow_kinks=False, big=False, leaves=None, 
                 return int(len(vals) - 1 - min(len(vals) - 1, int(rng.integers(0, 4))))
             return int(rng.integers(len(vals)))
         ins_in = [pick() for _ in range(ar)]
+        if any(i in reserved for i in ins_in):
+            continue
         if ar == 2 and rng.random() < 0.2:
             ins_in[1] = ins_in[0]          # same tensor twice in one op
         elif ar >= 2 and rng.random() < 0.3:
@@ -319,7 +354,13 @@ def generate(rng, n_instr, n_leaves, allow_kinks=False, big=False, leaves=None, 
                 if r != 3:
                     continue
                 k_ = int(rng.integers(1, min(3, x[0].shape[2]) + 1))
-                args = {"co": int(rng.integers(1, 3)), "k": k_, "s": int(rng.integers(1, 3)), "p": int(rng.integers(0, 2)), "d": 1, "wseed": int(rng.integers(1 << 30))}
+                args = {"co": int(rng.integers(1, 3)), "k": k_, "s": int(rng.integers(1, 3)), "p": int(rng.integers(0, 3)), "d": int(rng.integers(1, 3)), "wseed": int(rng.integers(1 << 30))}
+            elif op == "mul_const_then_iadd":
+                args = {"c": [float(v) for v in np.round(rng.uniform(0.5, 2.0, x[0].shape[-1] if r else 1), 3)]} if r else {"c": float(np.round(rng.uniform(0.5, 2.0), 3))}
+            elif op == "conv1d_wb":
+                if r != 3 or x[1].ndim != 3 or x[2].ndim != 1 or x[1].shape[1] != x[0].shape[1] or x[2].shape[0] != x[1].shape[0] or x[1].shape[2] > x[0].shape[2] + 2:
+                    continue
+                args = {"p": 1}
             elif op == "conv1d_w":
                 if r != 3 or x[1].ndim != 3 or x[1].shape[1] != x[0].shape[1] or x[1].shape[2] > x[0].shape[2] + 2:
                     continue
